@@ -27,7 +27,7 @@ from collections import defaultdict
 from . import tablelib as tl
 from .tlc import make_cfg, run_tlc
 
-MC_INVARIANTS = ["InvWellFormed", "TransposeInvolution", "RStripIdempotent", "RStripKeepsValues"]
+MC_INVARIANTS = ["InvWellFormed", "TransposeInvolution", "TransposeAreaInvolution", "RStripIdempotent", "RStripKeepsValues"]
 MC_PROPERTIES = ["RowLocal", "CellLocal", "ColumnShift", "WidthMonotone", "FirstRowDeclaresColumns"]
 
 
